@@ -338,8 +338,12 @@ def corpus_prims(package, byte_order=None):
               Type("C_f", "float", presence="constant", const="1.5"),
               Type("C_d", "double", presence="constant", const="-2.25e10"),
               Type("C_ref", "uint8", presence="constant", value_ref="E_u8.Max"),
-              Type("C_refc", "char", presence="constant", value_ref="E_char.B")]
-    for c in ("C_u32", "C_i64", "C_u64", "C_char", "C_str", "C_strpad", "C_f", "C_d", "C_ref", "C_refc"):
+              Type("C_refc", "char", presence="constant", value_ref="E_char.B"),
+              # text that is not printable ASCII: UTF-8 (lengths count bytes), tab/CR/LF, DEL
+              Type("C_u8", "char", presence="constant", const="B\u00f6rse", char_encoding="UTF-8",
+                   description="B\u00f6rse \u20ac \u65e5\u672c tab\there cr\rlf\n del\x7f end", semantic_type="St\u00fcck"),
+              Type("C_u8pad", "char", presence="constant", length=9, const="\u20ac\t\u65e5")]
+    for c in ("C_u32", "C_i64", "C_u64", "C_char", "C_str", "C_strpad", "C_f", "C_d", "C_ref", "C_refc", "C_u8", "C_u8pad"):
         fields.append(Field("k_%s" % c, nid(), c))
     fields.append(Field("k_enum", nid(), "E_u8", presence="constant", value_ref="E_u8.One"))
     fields.append(Field("k_prim", nid(), "uint16", presence="constant", value_ref="E_u16.Hi"))
